@@ -71,6 +71,10 @@ func c18Pinning(canonOnly bool) []c18Atom {
 		out = append(out, c18Atom{n: gen.In(K(), gen.Str("")), kind: "in", set: []string{""}})
 		out = append(out, c18Atom{n: gen.In(K(), gen.Str(""), gen.Str("")), kind: "in", set: []string{""}})
 		out = append(out, c18Atom{n: gen.In(K(), gen.Str(""), gen.Str("b")), kind: "in", set: []string{"", "b"}})
+		// BETWEEN with reversed bounds selects nothing on its face; BETWEEN '' AND '' pins the empty key
+		out = append(out, c18Atom{n: gen.Between(K(), gen.Str("c"), gen.Str("a")), kind: "between", lo: sp("c"), hi: sp("a")})
+		out = append(out, c18Atom{n: gen.Between(K(), gen.Str("b"), gen.Str("ab")), kind: "between", lo: sp("b"), hi: sp("ab")})
+		out = append(out, c18Atom{n: gen.Between(K(), gen.Str(""), gen.Str("")), kind: "between", lo: sp(""), hi: sp("")})
 		// an upper bound at the empty literal: nothing but the empty key lies below it
 		out = append(out, c18Atom{n: gen.Bin("<=", K(), gen.Str("")), kind: "le", hi: sp("")})
 		out = append(out, c18Atom{n: gen.Bin("<", K(), gen.Str("")), kind: "le", hi: sp(""), open: true})
@@ -238,6 +242,11 @@ func (a c18Atom) where(key string) int {
 }
 
 func c18UnsatOnFace(pins []c18Atom) bool {
+	for _, p := range pins {
+		if isRange(p) && p.lo != nil && p.hi != nil && *p.lo > *p.hi {
+			return true // a range written with its bounds reversed
+		}
+	}
 	for i := range pins {
 		for j := i + 1; j < len(pins); j++ {
 			a, b := pins[i], pins[j]
@@ -342,13 +351,21 @@ func (k c18) judge(c *rt.Ctx, tree *gen.Node, pins []c18Atom, isFalse bool) {
 		rec.Inc("mode:" + md)
 		log := st.Log()
 		c.Logf("query %s  mode %s\n  outcome %v\n  log %v", query, m, outcomeBrief(o), refstore.FormatLog(log))
+		failed := false
 		if o.Status() != "ok" {
-			if o.Status() == "panic" {
+			switch o.Status() {
+			case "panic":
 				c.Violation("crash", o.Frame, func() rt.D { return rt.D{"query": query, "outcome": outcomeBrief(o)} })
-			} else {
+				return
+			case "execerr":
+				// a statement that fails on a pair (BETWEEN with equal bounds) has read a part of
+				// what it would have read: the reads are judged all the same
+				failed = true
+				rec.Inc("failing_statements_judged_on_their_reads")
+			default:
 				rec.NotJudged("statement did not complete: " + o.Status())
+				return
 			}
-			return
 		}
 		var reads []string
 		nextHits := 0
@@ -389,6 +406,9 @@ func (k c18) judge(c *rt.Ctx, tree *gen.Node, pins []c18Atom, isFalse bool) {
 				c.Violation("unsatisfiable-clause-touches-storage", cluster, detail(rt.D{"storage_calls": touched}))
 				return
 			}
+			continue
+		}
+		if len(reads) == 0 && failed {
 			continue
 		}
 		if len(reads) == 0 {
